@@ -164,6 +164,125 @@ def o6(h, st):
 from tverif.engine import repeatable
 repeatable((SM, "get_vector"), (SM, "get_reference_circuit"), (SM, "vector_to_circuit"), (MT, "fermion_to_qubit_mapping"))
 
+# ---------------------------------------------------------------------------------------------------------------------
+# P1 / P2  Jordan-Wigner reference vectors and circuits for EVERY register size, electron number and spin (symbolic integers; symbolic-length arrays, loop cut)
+
+from tverif.engine import GhostList, Opaque, stub
+from tverif.interp import GhostIterable, SymVec
+from tverif.ring import Poly
+
+CIRC = "tangelo/linq/circuit.py"
+
+
+def _iff(a, b):
+    return (a & b) | (~a & ~b)
+
+
+@contract("C05", "P1.get_vector.JW.any_size", targets=[(SM, "get_vector"), (SM, "get_mapped_vector")], level="P",
+          structures=lambda tier: [{"utd": u, "spin": sp} for u in (False, True) for sp in ("sym", "none")], max_paths=40)
+def p1(h, st):
+    """Jordan-Wigner, for EVERY even register size n, every electron number and every spin consistent with it (symbolic integers; negative and odd spins included): the vector
+    has length n and, at EVERY position k, v[k] == 1 iff spin-orbital k is among the first n_alpha alpha / n_beta beta orbitals (alternating ordering: k even and k/2 < n_alpha,
+    or k odd and (k-1)/2 < n_beta; up_then_down: k < n/2 and k < n_alpha, or k >= n/2 and k - n/2 < n_beta), else 0, with n_alpha = (n_e + spin)/2, n_beta = (n_e - spin)/2;
+    spin None: the first n_e spin-orbitals of the alternating ordering. (numpy's zeros / slice assignment / strided views / concatenate on a symbolic-length array are modelled
+    with Python's slice semantics, tverif.interp.SymVec)"""
+    if not h.symbolic:
+        h.check("native: covered by O1", True)
+        h.done()
+        return
+    n, ne = h.integer("n"), h.integer("n_e")
+    h.assume(n >= 0)
+    h.assume(n % 2 == 0)
+    h.assume(ne >= 0)
+    h.assume(ne <= n)
+    if st["spin"] == "sym":
+        spin = h.integer("spin")
+        h.assume((ne + spin) % 2 == 0)
+        na, nb = (ne + spin) // 2, (ne - spin) // 2
+        h.assume(na >= 0)
+        h.assume(nb >= 0)
+        h.assume(2 * na <= n)
+        h.assume(2 * nb <= n)
+    else:
+        spin = None
+    v = h.call(SM, "get_vector", n, ne, "JW", st["utd"], spin)
+    h.shape("a symbolic-length array is returned", isinstance(v, SymVec))
+    h.check_close("length == n_spinorbitals", v.n, n)
+    k = h.integer("k")
+    h.assume(k >= 0)
+    h.assume(k < n)
+    val = v.get(k)
+    h.check("entries are 0 or 1", (val == 0) | (val == 1))
+    half = n // 2
+    if spin is None:
+        # first n_e spin-orbitals in the alternating ordering: orbital index j of the alternating ordering is occupied iff j < n_e
+        if st["utd"]:
+            occupied = ((k < half) & (2 * k < ne)) | ((k >= half) & (2 * (k - half) + 1 < ne))
+        else:
+            occupied = (k < ne)
+    else:
+        if st["utd"]:
+            occupied = ((k < half) & (k < na)) | ((k >= half) & (k - half < nb))
+        else:
+            occupied = ((k % 2 == 0) & (k // 2 < na)) | ((k % 2 == 1) & ((k - 1) // 2 < nb))
+    h.check("v[k] == 1 exactly on the requested spin-orbitals", _iff(val == 1, occupied))
+    h.done()
+
+
+class _XLoop(GhostIterable):
+    managed = ("circuit",)
+
+    def __init__(self, h, calls):
+        self.h, self.calls = h, calls
+
+    def init(self, interp, env):
+        self.h.check("before the loop: no gate added", self.calls == [])
+        self.circuit = env.lookup("circuit")
+
+    def step(self, interp, env, broke):
+        h, e = self.h, self.enum
+        h.check("the loop does not stop early", not broke)
+        h.shape("the circuit is not rebound", env.lookup("circuit") is self.circuit)
+        if self.calls:
+            h.check("a gate is added only for an occupied position", e.value != 0)
+            a, k = self.calls[0]
+            g = a[1]
+            h.check("exactly one gate, added to the circuit under construction", len(self.calls) == 1 and a[0] is self.circuit)
+            h.check("it is an X gate without control", g.name == "X" and g.control is None and len(g.target) == 1)
+            h.check_close("on the qubit with the position's index", g.target[0], e.index)
+        else:
+            h.check("no gate only for an unoccupied position", e.value == 0)
+
+
+@contract("C05", "P2.vector_to_circuit.any_size", targets=[(SM, "vector_to_circuit")], level="P", structures=lambda tier: [None])
+def p2(h, st):
+    """for an occupation vector of ANY length n with ARBITRARY content: the circuit is constructed with fixed width n and no gates, and one generic iteration on a generic position
+    i adds exactly X(i) when v[i] != 0 and nothing when v[i] == 0 (Circuit.add_gate under contract C11.P2); by induction the circuit is [X(i) for the occupied i in
+    increasing order] on n qubits"""
+    if not h.symbolic:
+        h.check("native: covered by O3", True)
+        h.done()
+        return
+    import z3
+    n = h.integer("n")
+    h.assume(n >= 0)
+    occ = z3.Function("occ", z3.IntSort(), z3.IntSort())
+    calls, inits = [], []
+    stub(h, CIRC, "Circuit.add_gate", lambda a, k: None, log=calls)
+    stub(h, CIRC, "Circuit.__init__", lambda a, k: None, log=inits)
+    proto = _XLoop(h, calls)
+    v = SymVec(n, read=lambda j: Poly.atom(occ(SymVec._z(j)), isint=True), proto=proto)
+    out = h.call(SM, "vector_to_circuit", v)
+    h.shape("one circuit constructed", len(inits) == 1)
+    a, k = inits[0]
+    nq = k.get("n_qubits", a[2] if len(a) > 2 else None)
+    gates = k.get("gates", a[1] if len(a) > 1 else None)
+    h.check("constructed empty", gates is None or gates == [])
+    h.check_close("with fixed width len(vector)", nq, n)
+    h.check("that circuit is returned", out is inits[0][0][0])
+    h.done()
+
+
 PROPERTY = {
     "level": "other",
     "explanation": "Bounded exhaustive, executed from the AST of the real functions with an exact oracle: for every occupation vector / every admissible "
